@@ -6,7 +6,7 @@ import logging
 from abc import ABC, abstractmethod
 from asyncio.exceptions import CancelledError
 from asyncio.streams import StreamReader, StreamWriter, start_server
-from asyncio.tasks import Task, create_task
+from asyncio.tasks import Task, create_task, sleep
 from pathlib import Path
 from typing import TYPE_CHECKING, Any, Generic, TypeVar
 
@@ -150,7 +150,11 @@ class ControlServer(ABC, Generic[ClientT]):
         self._server = await self._get_server_instance(
             self._client_connected_cb, **self._server_kwargs
         )
-        return create_task(self._serve_forever())
+        task = create_task(self._serve_forever())
+        # Let the serving task take its first step, so that it is inside its
+        # `try` block (and cleans up) whenever the caller cancels it.
+        await sleep(0)
+        return task
 
 
 class TCPControlServer(ControlServer[TCPControlClient]):
